@@ -238,6 +238,16 @@ def lower(e):
     return apply_derivatives(apply_algebra_lowering(e))
 
 
+def same_form(a, b):
+    """equal forms up to the numbering of bound index objects (two calls of the splitter create their fresh indices independently)"""
+    if a.equals(b):
+        return True
+    try:
+        return a.signature() == b.signature()
+    except Exception:  # noqa
+        return False
+
+
 class C22(Prop):
     pid = "C22"
     lean_modules = ["UflVerif.Props.C22"]
@@ -854,7 +864,7 @@ class C22(Prop):
                     got = b
                     if isinstance(got, Form) and got.empty():
                         got = None
-                    if (want is None) != (got is None) or (want is not None and not want.equals(got)):
+                    if (want is None) != (got is None) or (want is not None and not same_form(want, got)):
                         bad.append(("extract_blocks(L, %d) differs from entry %d of extract_blocks(L)" % (i, i), dict(desc, kind="modes:single-vs-all")))
                 else:
                     # the documented result is the i-th row
@@ -865,13 +875,13 @@ class C22(Prop):
                         if rowl is not None and any(x is not None for x in rowl) and b.empty():
                             self.row_call_empty = getattr(self, "row_call_empty", 0) + 1
                     elif rowl is not None and isinstance(b, (tuple, list)):
-                        if len(b) != len(rowl) or any((x is None) != (y is None) or (x is not None and not x.equals(y)) for x, y in zip(b, rowl)):
+                        if len(b) != len(rowl) or any((x is None) != (y is None) or (x is not None and not same_form(x, y)) for x, y in zip(b, rowl)):
                             bad.append(("extract_blocks(a, %d) differs from row %d of extract_blocks(a)" % (i, i), dict(desc, kind="modes:row-vs-all")))
             elif n1 is not None and isinstance(row, (tuple, list)) and j < len(row):
                 want, got = row[j], b
                 if isinstance(got, Form) and got.empty():
                     got = None
-                if (want is None) != (got is None) or (want is not None and not want.equals(got)):
+                if (want is None) != (got is None) or (want is not None and not same_form(want, got)):
                     bad.append(("extract_blocks(a, %d, %d) differs from entry (%d, %d) of extract_blocks(a)" % (i, j, i, j), dict(desc, kind="modes:single-vs-all")))
 
     def replay(self, ctx, data):
